@@ -49,7 +49,7 @@ Lemma fadt_fold_no_markers ops : forall v v', fadt_fold v ops = Some v' -> no_ma
 Proof.
   induction ops as [|o ops IH]; intros v v' H; [reflexivity|]. cbn [fadt_fold] in H.
   destruct (fadt_apply v o) as [v1|] eqn:Ea; [|discriminate].
-  destruct o as [n|l]; [destruct v; discriminate Ea|].
+  destruct o as [n|l]; [discriminate Ea|].
   cbn [no_markers forallb]. exact (IH _ _ H).
 Qed.
 
@@ -114,7 +114,7 @@ Proof.
   - destruct (rsdp_refines md ctor ops r H Hw) as (s0 & s & Hn & Hr & Hi).
     unfold rsdp_case. eapply run_history_observe; [exact Hn|exact (ctor_only_no_markers _ _ _ _ H)|exact Hr|now rewrite Hi].
   - destruct (facs_refines md ctor ops r H) as (s0 & s & Hn & Hr & Hi).
-    unfold facs_case. eapply run_history_observe; [exact Hn|exact (ctor_only_no_markers _ _ _ _ H)|exact Hr|now rewrite Hi].
+    unfold facs_case. eapply run_history_observe; [exact Hn|exact (facs_no_markers _ _ _ H)|exact Hr|now rewrite Hi].
 Qed.
 
 Print Assumptions fixed_refines.
